@@ -1,7 +1,7 @@
 SPECIFICATION Spec
 CONSTANTS
-  NTx = 2
-  MaxBranch = 2
+  NTx = 3
+  MaxBranch = 1
   MaxSess = 2
 INVARIANTS TypeOK Balanced
 PROPERTIES AllTerminate
